@@ -450,6 +450,14 @@ def rand_cplx(rng, real=False):
     return complex(re_, im_)
 
 
+def cast_dtype(a, dtype):
+    if dtype == "float":
+        return np.ascontiguousarray(a.real, dtype=float)
+    if dtype == "int":
+        return np.ascontiguousarray(np.rint(4 * a.real), dtype=np.int64)
+    return a
+
+
 def rand_molecular(rng, L, herm, varch, style):
     """dyadic complex tensors; style: 'sym' (symmetrised as declared), 'raw', 'perturbed'"""
     tk = np.array([[rand_cplx(rng) for _ in range(L)] for _ in range(L)], dtype=complex)
@@ -1073,8 +1081,12 @@ def run(ctx):
         herm, varch = bool(k & 1), bool(k & 2)
         style = ["sym", "sym", "perturbed", "raw"][(k // 4) % 4]
         c, tk, vi = rand_molecular(rng, L, herm, varch, style)
+        # array dtypes a caller may hand in: complex128 (default), float64, int64 (real parts; x4 makes them integers)
+        dtype = ["complex", "complex", "float", "complex", "int"][(k // 2) % 5]
+        tk, vi = cast_dtype(tk, dtype), cast_dtype(vi, dtype)
+        ctx.count("molecular_dtype_" + dtype)
         desc = {"kind": "molecular", "L": L, "c": repr(c), "tkin": [[repr(complex(x)) for x in r] for r in tk],
-                "vint": [repr(complex(x)) for x in vi.reshape(-1)], "herm": herm, "varch": varch}
+                "vint": [repr(complex(x)) for x in vi.reshape(-1)], "herm": herm, "varch": varch, "dtype": dtype}
         try:
             H, M = molecular_oracle(ctx, L, c, tk, vi, herm, varch, desc)
         except Exception as e:
@@ -1167,6 +1179,8 @@ def replay(ctx, data):
             c = int(c)
         tk = np.array([[complex(x) for x in r] for r in inp["tkin"]], dtype=complex).reshape((L, L))
         vi = np.array([complex(x) for x in inp["vint"]], dtype=complex).reshape((L,) * 4)
+        if inp.get("dtype", "complex") != "complex":
+            tk, vi = (a.real.astype(float if inp["dtype"] == "float" else np.int64) for a in (tk, vi))
         molecular_oracle(ctx, L, c, tk, vi, inp["herm"], inp["varch"], inp)
     elif kind == "probe":
         run_probe(ctx, inp)
